@@ -271,6 +271,7 @@ func runCheck(repo, prop, tier string, keep bool, only string, verbose bool) int
 	solverTime := 0.0
 	var failed, known []*Obligation
 	var brokenCanaries []string
+	canaryGroups := map[string]*canaryGroup{}
 	nObl, nDis, nCanary := 0, 0, 0
 	type sample struct {
 		Name   string  `json:"obligation"`
@@ -283,9 +284,17 @@ func runCheck(repo, prop, tier string, keep bool, only string, verbose bool) int
 	for idx, o := range all {
 		solverTime += o.Result.Time
 		if o.Canary {
-			nCanary++
-			if o.Result.Status == "unsat" {
-				brokenCanaries = append(brokenCanaries, o.Name)
+			// a canary point may be reached on several paths, some of them
+			// infeasible: it is contradictory only if it is so on every path
+			key := o.Func + "/" + o.Detail
+			cg := canaryGroups[key]
+			if cg == nil {
+				cg = &canaryGroup{name: o.Name}
+				canaryGroups[key] = cg
+			}
+			cg.total++
+			if o.Result.Status != "unsat" {
+				cg.alive++
 			}
 			continue
 		}
@@ -319,6 +328,12 @@ func runCheck(repo, prop, tier string, keep bool, only string, verbose bool) int
 		}
 		if verbose {
 			fmt.Printf("  %-8s %-7s %6.2fs %s\n", o.Result.Status, o.Result.Solver, o.Result.Time, o.Name)
+		}
+	}
+	for _, k := range sortedKeys(canaryGroups) {
+		nCanary++
+		if canaryGroups[k].alive == 0 {
+			brokenCanaries = append(brokenCanaries, canaryGroups[k].name)
 		}
 	}
 	exit := 0
@@ -438,6 +453,11 @@ func obligationInProperty(o *Obligation, c *FuncContract, prop string) bool {
 		return false
 	}
 	return hasProp(c.Props, prop)
+}
+
+type canaryGroup struct {
+	name         string
+	total, alive int
 }
 
 func round3(f float64) float64 { return float64(int(f*1000+0.5)) / 1000 }
